@@ -26,7 +26,8 @@ Inductive wev :=
 
 (* capabilities the handler finds on the writer it is given *)
 Record caps := { flush_ok : bool; hijack_ok : bool }.
-Definition full : caps := {| flush_ok := true; hijack_ok := true |}.
+Definition full : caps := {| flush_ok := true; hijack_ok := true |}.      (* an HTTP/1 connection *)
+Definition h2caps : caps := {| flush_ok := true; hijack_ok := false |}.   (* an HTTP/2 stream cannot be hijacked *)
 
 (* the handler run against a writer with capabilities c *)
 Fixpoint run_handler (c : caps) (h : list hact) : list wev :=
@@ -110,7 +111,8 @@ Fixpoint client (tr : list wev) (committed : bool) (st : Z) (hs : list (Z * Z)) 
 Definition client_view (tr : list wev) : view := client tr false 0 [] [] 0.
 
 (* ---- integer encoding: one op = one exchange on a freshly built stack ----
-   [nlayers; (kind intervenes sticky)*; nacts; acts...] with acts 0 k v | 1 c | 2 len b.. | 3 | 4 *)
+   [nlayers; (kind intervenes sticky)*; proto; acts...] with proto 0 = HTTP/1, 1 = HTTP/2 and
+   acts 0 k v | 1 c | 2 len b.. | 3 | 4 | 5 c (informational, ignored) *)
 Definition kind_of (z : Z) : kind :=
   match z with 0 => KStream | 1 => KTrace | 2 => KConn | 3 => KRate | 4 => KBreaker | 5 => KRR | 6 => KReb | _ => KBuffer end.
 
@@ -131,6 +133,7 @@ Fixpoint decode_acts (fuel : nat) (l : list Z) : list hact :=
     | 2 :: n :: r => HWrite (firstn (Z.to_nat n) r) :: decode_acts f (skipn (Z.to_nat n) r)
     | 3 :: r => HFlush :: decode_acts f r
     | 4 :: r => HHijack :: decode_acts f r
+    | 5 :: _ :: r => decode_acts f r      (* an informational 1xx response before the final status: not part of the view *)
     | _ => []
     end
   end.
@@ -147,7 +150,8 @@ Definition exchange (op : list Z) : list Z :=
   | nl :: r =>
       let '(st, r') := decode_layers (Z.to_nat nl) r in
       let h := match r' with _ :: acts => decode_acts (length acts) acts | [] => [] end in
-      let '(tr, n) := serve st full h in
+      let c := match r' with 1 :: _ => h2caps | _ => full end in
+      let '(tr, n) := serve st c h in
       let v := client_view tr in
       [zbool (v_hijacked v); v_status v; n; Z.of_nat (length (v_body v)); hash_bytes (v_body v);
        Z.of_nat (length (filter (fun kv => fst kv <? 1000) (v_hdrs v))); hash_hdrs (v_hdrs v); has_cookie (v_hdrs v)]
